@@ -9,26 +9,33 @@ import (
 
 // profile selects which (at most two) dimensions a history stresses beyond the well-formed lifecycle.
 type profile struct {
-	PidReuse   bool // a provider id may be handed from one node/claim to another
-	Untracked  bool // pods may be (re)created pending or on nodes the cache cannot track, under a name that was bound before
-	NodeLoss   bool // a Node may disappear (or change its provider id) while its NodeClaim and its pods remain
-	Relabel    bool // a NodeClaim/Node may change its nodepool label
-	SameNodeRe bool // pods may be re-created under the same name on the same node with different attributes
+	PidReuse    bool // a provider id may be handed from one node/claim to another
+	Untracked   bool // pods may be (re)created pending or on nodes the cache cannot track, under a name that was bound before
+	NodeLoss    bool // a Node may disappear (or change its provider id) while its NodeClaim and its pods remain
+	Relabel     bool // a NodeClaim/Node may change its nodepool label
+	SameNodeRe  bool // pods may be re-created under the same name on the same node with different attributes
+	Untrackable bool // a node name the cache tracks may come back in an untrackable form
 }
 
 type gen struct {
-	r     *kit.Rand
-	w     *world
-	prof  profile
-	ops   []Op
-	dirty map[string]bool // "N/n0", "C/c0", "P/p0": changed in the API since the last delivery
-	ever  map[string]bool
-	bound map[string]bool // pod names that were ever written bound to a node
+	r                      *kit.Rand
+	w                      *world
+	prof                   profile
+	ops                    []Op
+	dirty                  map[string]bool // "N/n0", "C/c0", "P/p0": changed in the API since the last delivery
+	ever                   map[string]bool
+	bound                  map[string]bool // pod names that were ever written bound to a node
 	nNodes, nClaims, nPods int
-	count func(string)
+	count                  func(string)
+}
+
+func (g *gen) observe(tag string) {
+	d := g.w.cluster.VerifC11Dump()
+	g.ops = append(g.ops, Op{Kind: "Obs", Obs: &d, Tag: tag})
 }
 
 func (g *gen) emit(o Op) {
+	g.branch(o)
 	g.ops = append(g.ops, o)
 	g.w.apply(o)
 	switch o.Kind {
@@ -109,7 +116,7 @@ func (g *gen) stepNode() {
 			v.Reg = true
 			v.Init = g.r.Chance(1, 2)
 		}
-		if g.dirty["N/"+name] && !g.prof.Untracked && pool != "" {
+		if g.dirty["N/"+name] && !g.prof.Untrackable && pool != "" {
 			// re-created before the cache saw the deletion: keep it trackable
 			v.PID, v.IType = truePID, true
 		}
@@ -217,6 +224,8 @@ func (g *gen) stepClaim() {
 		return
 	case c < 11 && g.prof.PidReuse:
 		v.PID = fmt.Sprintf("x%d", g.r.Intn(g.nNodes))
+	case c < 11 && v.PID != "" && g.r.Chance(1, 3):
+		v.PID = "z" + name // the claim is re-launched under a provider id nobody else uses
 	case c < 12 && g.prof.Relabel:
 		v.Pool = map[string]string{"pa": "pb", "pb": "pa"}[v.Pool]
 	default:
@@ -242,10 +251,10 @@ func (g *gen) randomPod(name, node string) *PodV {
 		c := int64(-(1 << 27))
 		v.DelCost = &c // cost exactly 0
 	case 1:
-		c := int64(-(1<<27) + 1)
+		c := int64(-(1 << 27) + 1)
 		v.DelCost = &c // smallest positive cost
 	case 2:
-		c := int64(-(1<<27) - 1)
+		c := int64(-(1 << 27) - 1)
 		v.DelCost = &c // just below 0
 	case 3:
 		c := int64(1 << 26)
@@ -318,9 +327,9 @@ func (g *gen) stepPod() {
 		v := *cur
 		v.Terminal = true
 		g.emit(Op{Kind: "SetPod", Pod: &v})
-	case c < 5:
+	case c < 4:
 		g.emit(Op{Kind: "DelPod", Name: name})
-	case c < 7 && cur.Node == "":
+	case c < 6 && cur.Node == "":
 		// the scheduler binds a pending pod (in Kubernetes the only in-place change of spec.nodeName)
 		v := *cur
 		v.Node = g.pickNodeFor(name)
@@ -368,6 +377,23 @@ func (g *gen) stepMark() {
 }
 
 func (g *gen) history(n int) {
+	if len(g.ops) == 0 && g.r.Chance(3, 4) {
+		// warm start: one or two tracked nodes, so that pods have somewhere to be bound
+		for k := g.r.Range(1, 2); k > 0; k-- {
+			i := g.r.Intn(g.nNodes)
+			name := fmt.Sprintf("n%d", i)
+			if _, ok := g.w.nodes[name]; ok {
+				continue
+			}
+			pid := fmt.Sprintf("x%d", i)
+			if g.poolOf(i) == "" && g.r.Bool() {
+				pid = ""
+			}
+			g.emit(Op{Kind: "SetNode", Node: &NodeV{Name: name, PID: pid, Pool: g.poolOf(i), IType: true, Reg: g.r.Bool(), Init: g.r.Bool(), CPU: caps[i%4][0], Mem: caps[i%4][1]}})
+			g.emit(Op{Kind: "DeliverNode", Name: name})
+		}
+		n += len(g.ops)
+	}
 	for len(g.ops) < n {
 		before := len(g.ops)
 		switch c := g.r.Intn(100); {
